@@ -147,114 +147,10 @@ func checkC09(p *core.Program, r *core.Report) {
 		r.Violation("O9.1", hu.Name, p.Pos(hu.Node.Pos()), "handler has no named http.ResponseWriter parameter")
 		return
 	}
-	helpers, condHelpers, g := checkStatusOnceX(p, r, ix, hu, w, "O9.1")
-	// ---- O9.2 error table
-	ctors := errorConstructors(p, ix)
-	r.Count("error constructors", len(ctors))
+	// ---- O9.1 / O9.2: path-sensitive walk of the handler and the functions of its package it calls (respflow.go)
 	ps := provingSystemType(p)
-	kindOf := func(s *flow.Site) string {
-		fn, _ := s.Callee.(*types.Func)
-		if fn == nil {
-			return ""
-		}
-		full := fn.FullName()
-		switch {
-		case full == "io.ReadAll" || full == "io/ioutil.ReadAll" || full == "(*bytes.Buffer).ReadFrom" || full == "io.Copy":
-			return "body"
-		case full == "encoding/json.Unmarshal" || full == "(*encoding/json.Decoder).Decode":
-			return "decode"
-		case full == "encoding/json.Marshal":
-			return "encode"
-		}
-		if sig, ok := fn.Type().(*types.Signature); ok && sig.Recv() != nil && ps != nil && namedOf(sig.Recv().Type()) == ps && sig.Results().Len() == 2 {
-			return "prove"
-		}
-		return ""
-	}
-	want := map[string]errorConstructor{
-		"body":   {400, "malformed_body"},
-		"decode": {400, "malformed_body"},
-		"prove":  {400, "proving_error"},
-		"encode": {500, "unexpected_error"},
-	}
-	isSink := func(call *ast.CallExpr, callee types.Object) bool {
-		fn, _ := callee.(*types.Func)
-		return fn != nil && helpers[fn.Origin()]
-	}
-	kinds := map[string]int{}
-	tableFor := func(tu flow.FuncUnit, tw *types.Var) {
-		tinfo := tu.Pkg.TypesInfo
-		sites := flow.Analyse(tu, flow.Config{
-			Select: func(call *ast.CallExpr, callee types.Object) bool {
-				return hasErrorResult(tinfo, call) && !isWriterCall(tinfo, call, tw)
-			},
-			Sink:         isSink,
-			NoResultFunc: true,
-			GuardedVars: func(s *flow.Site) []*types.Var {
-				// decode destination: json.Unmarshal(buf, &dst)
-				if fn, _ := s.Callee.(*types.Func); fn != nil && fn.FullName() == "encoding/json.Unmarshal" && len(s.Call.Args) == 2 {
-					if v := baseIdentVar(tinfo, s.Call.Args[1]); v != nil {
-						return []*types.Var{v}
-					}
-				}
-				return nil
-			},
-		})
-		ord := map[string]int{}
-		for _, s := range sites {
-			if s.Form == "noerror" {
-				continue
-			}
-			k := kindOf(s)
-			cn := siteConstruct(tu, s, ord)
-			if k == "" {
-				// an error source outside the table: must still be handled
-				if len(s.Findings) > 0 {
-					r.Violation("O9.2", cn, p.Pos(s.Pos), "%s", findingsText(p, s))
-				} else {
-					r.OK("O9.2", cn, p.Pos(s.Pos), "error handled (source outside the documented table)")
-				}
-				continue
-			}
-			kinds[k]++
-			r.Count("tabled error sources", 1)
-			if len(s.Findings) > 0 {
-				r.Violation("O9.2", cn, p.Pos(s.Pos), "%s", findingsText(p, s))
-				continue
-			}
-			if len(s.Sinks) == 0 {
-				r.Violation("O9.2", cn, p.Pos(s.Pos), "the error of this %s step is never handed to an error sender", k)
-				continue
-			}
-			var wrong []string
-			for _, sc := range s.Sinks {
-				ec, okC := senderConstructor(tinfo, sc, ctors)
-				switch {
-				case !okC:
-					wrong = append(wrong, fmt.Sprintf("sender at %s is not built by a constant (status, code) constructor", p.Pos(sc.Pos())))
-				case ec != want[k]:
-					wrong = append(wrong, fmt.Sprintf("answers %d/%q at %s, documented %d/%q", ec.Status, ec.Code, p.Pos(sc.Pos()), want[k].Status, want[k].Code))
-				}
-			}
-			r.Check(len(wrong) == 0, "O9.2", cn, p.Pos(s.Pos), fmt.Sprintf("%s error ⇒ %d/%s, then return", k, want[k].Status, want[k].Code), strings.Join(wrong, "; "))
-		}
-	}
-	tableFor(hu, w)
-	// error sources inside helpers that answer on the handler's behalf (a decode step moved into a helper, say)
-	var chs []*types.Func
-	for fn := range condHelpers {
-		chs = append(chs, fn)
-	}
-	sort.Slice(chs, func(i, j int) bool { return chs[i].FullName() < chs[j].FullName() })
-	for _, fn := range chs {
-		tableFor(condHelpers[fn].Unit, condHelpers[fn].W)
-	}
-	r.Floor("tabled error sources", 4) // one per kind at least; a decode step shared by both modes through a helper is one site
-	for _, k := range []string{"body", "decode", "prove", "encode"} {
-		if kinds[k] == 0 {
-			r.Violation("O9.2", hu.Name+": "+k+" step", p.Pos(hu.Node.Pos()), "the handler has no %s step with a checked error (expected io.ReadAll / json.Unmarshal / prover / json.Marshal)", k)
-		}
-	}
+	rw := checkResponsePaths(p, r, hfn, ps, modeConstants(p), "O9.1", "O9.2")
+	_ = w
 	// whole-body decoding: a streaming decoder accepts trailing bytes after a valid document
 	ast.Inspect(hu.Node, func(n ast.Node) bool {
 		if call, ok := n.(*ast.CallExpr); ok {
@@ -277,12 +173,8 @@ func checkC09(p *core.Program, r *core.Report) {
 	// the decoded bytes are the whole body
 	r.Count("request documents decoded", checkWholeDocument(p, r, "O9.2", hu.Name, hfn))
 	r.Floor("request documents decoded", 1)
-	// method check: cond r.Method != "POST" → WriteHeader(405) and return, before any body read
-	checkMethodGate(p, r, hu, g, w)
-	// 200 path
-	checkSuccessPath(p, r, hu, g, w, ps)
 	// O9.3
-	checkModeDispatch(p, r, ix, hu)
+	checkModeDispatch(p, r, ix, hu, rw)
 	// O9.4
 	checkGuardCoversUse(p, r, ps)
 	// O9.5
@@ -589,8 +481,7 @@ func modeBranches(info *types.Info, root ast.Node) []struct {
 }
 
 // checkModeDispatch: O9.3.
-func checkModeDispatch(p *core.Program, r *core.Report, ix *funcIndex, hu flow.FuncUnit) {
-	info := hu.Pkg.TypesInfo
+func checkModeDispatch(p *core.Program, r *core.Report, ix *funcIndex, hu flow.FuncUnit, rw *respWalker) {
 	// mode constant -> circuit type, from the CLI setup action
 	constCircuit := map[string]string{}
 	for _, c := range cliCommands(p) {
@@ -615,26 +506,47 @@ func checkModeDispatch(p *core.Program, r *core.Report, ix *funcIndex, hu flow.F
 		r.Undecided("O9.3", "main.cmd:setup: mode constant → circuit", "-", "cannot derive which circuit each mode constant compiles from the setup command (found %v)", constCircuit)
 		return
 	}
-	n := 0
-	for _, mb := range modeBranches(info, hu.Node) {
-		var got []string
-		ast.Inspect(mb.Body, func(m ast.Node) bool {
-			if call, ok := m.(*ast.CallExpr); ok {
-				if fn, _ := typeutil.Callee(info, call).(*types.Func); fn != nil && inRepoObj(fn) {
-					if sf := p.SSA.FuncValue(fn); sf != nil {
-						if wt := witnessCircuitType(sf); wt != nil {
-							got = append(got, typeKey(wt))
-						}
+	// which prover runs under which mode: read off the enumerated paths (so it does not matter in which function of the
+	// handler's package the dispatch is written)
+	provers := map[string]map[string]token.Pos{}
+	for _, pt := range rw.paths {
+		if pt.modeKnown == "" {
+			continue
+		}
+		for _, e := range pt.events {
+			if e.kind == "step" && e.step == "prove" && e.callee != nil {
+				if wt := witnessCircuitType(e.callee); wt != nil {
+					if provers[pt.modeKnown] == nil {
+						provers[pt.modeKnown] = map[string]token.Pos{}
 					}
+					provers[pt.modeKnown][typeKey(wt)] = e.pos
 				}
 			}
-			return true
-		})
+		}
+	}
+	n := 0
+	var modes []string
+	for m := range constCircuit {
+		modes = append(modes, m)
+	}
+	sort.Strings(modes)
+	for _, m := range modes {
+		got := provers[m]
+		if len(got) == 0 {
+			continue
+		}
 		n++
-		cn := fmt.Sprintf("%s: mode %q", hu.Name, mb.Mode)
-		want := constCircuit[mb.Mode]
-		r.Check(len(got) == 1 && got[0] == want, "O9.3", cn, p.Pos(mb.Pos), "proves with the circuit that `setup --mode "+mb.Mode+"` compiles ("+want+")",
-			fmt.Sprintf("under mode %q the handler builds a witness for %v but `setup --mode %s` compiles %s: every request would fail or prove the other circuit", mb.Mode, got, mb.Mode, want))
+		var gl []string
+		pos := token.NoPos
+		for g, at := range got {
+			gl = append(gl, g)
+			pos = at
+		}
+		sort.Strings(gl)
+		cn := fmt.Sprintf("%s: mode %q", hu.Name, m)
+		want := constCircuit[m]
+		r.Check(len(gl) == 1 && gl[0] == want, "O9.3", cn, p.Pos(pos), "proves with the circuit that `setup --mode "+m+"` compiles ("+want+")",
+			fmt.Sprintf("under mode %q the handler builds a witness for %v but `setup --mode %s` compiles %s: every request would fail or prove the other circuit", m, gl, m, want))
 	}
 	r.Count("handler mode branches", n)
 	r.Floor("handler mode branches", 2)
